@@ -36,7 +36,8 @@ ASSUMPTIONS = (
     '_step_gvcfs are really executed by the ghost Table._generate, so a group\'s ghost carries exactly the paths the '
     'real lambda would import and the sample ids the real globals expression holds',
     'C38(b): hl.current_backend().fs is a dict of strings (exists/open/copy/remove); save() and load() round-trip '
-    'through the real Encoder/Decoder and the real json module; a dataset directory reports _SUCCESS once written',
+    'through the real Encoder/Decoder classes and the real json module; a dataset directory reports _SUCCESS once '
+    'written',
     'C38(b): floor(log(n, b)) is cut to an exact integer logarithm (repeated multiplication) plus a table of the '
     'points where the float expression differs (computed with math.floor(math.log(n, b)) for all 1 <= n <= 1024, '
     'b in {2,3,4} when the harness is imported; the only such point is n=243, b=3 where the float log is '
@@ -54,8 +55,16 @@ ASSUMPTIONS = (
     'after some writes but before the next save, is not modelled',
     'C38(b): CrossHair 0.0.110 is patched in the harness process so that an f-string over a symbolic int builds '
     'CrossHair\'s own lazy symbolic repr instead of realising the int (format(x, "") == repr(x) for ints); '
-    'branch_factor and gvcf_batch_size are case-split into one path per value so products stay linear for z3; '
-    'symbolic numbers written by save() are realised when the JSON text is stored (one path per value)',
+    'branch_factor (and gvcf_batch_size when there are gvcfs) are case-split into one path per value so products stay '
+    'linear for z3',
+    'C38(b): symbolic numbers in the plan are realised (one CrossHair path per value) when save() serialises it: the '
+    'tree returned by the traced Encoder.default/to_dict is realised, then the real json encoder loop runs on it with '
+    'CrossHair tracing switched off; json.load (real Decoder._object_hook and __init__) runs with tracing off on the '
+    'concrete text; after the first load every value of the plan and the ghost store is checked to be a plain '
+    'str/int/list/tuple/dict and from then on the real step()/save()/load() run with tracing off (concrete execution '
+    'of the real code; only the remaining resume bools are still symbolic and are read with tracing on); the real '
+    'constructors hl.Struct, hl.Interval, hl.tstruct, hl.tarray, hl.tinterval only ever receive concrete interval/'
+    'locus objects and also run with tracing off',
     'C38(b): CrossHair path exploration is exhaustive when it reports "Confirmed over all paths"',
 )
 
@@ -73,16 +82,21 @@ def configs(tier):
 
 # (N gvcfs, M vdses, external header?, resume?, smax, branch factor shard) - measured CPU seconds in comments
 QUICK = [
-    cfg(1, 2, True, False, 40),    # ~45
+    cfg(1, 2, True, False, 40, 2),  # ~30
+    cfg(1, 2, True, False, 40, 3),
+    cfg(1, 2, True, False, 40, 4),
+    cfg(0, 3, True, False, 8),
     cfg(1, 1, True, True, 4),      # 21
     cfg(0, 2, True, True, 3),      # 18
-    cfg(4, 0, False, True, 0),     # ~15
+    cfg(4, 0, False, True, 0),     # 8
     cfg(2, 1, False, False, 40),   # 13
     cfg(1, 1, False, False, 40),   # 15
     cfg(0, 2, True, False, 40),    # 14
     cfg(2, 1, True, True, 2),      # 13
     cfg(0, 1, True, True, 4),      # 17
+    cfg(6, 0, True, True, 0),      # 13
     cfg(3, 0, False, True, 0),     # 9
+    cfg(5, 0, False, False, 0),
     cfg(2, 0, True, True, 0),
     cfg(1, 0, False, True, 0),
     cfg(3, 0, True, False, 0),
